@@ -336,6 +336,19 @@ func (e *Encoder) EncodePackedFloat64(tag int, vs []float64) {
 
 // EncodeNested writes a nested message to the buffer preceded by the varint-encoded tag key.
 func (e *Encoder) EncodeNested(tag int, m interface{}) error {
+	if _, ok := m.(MarshalerTo); !ok {
+		// m cannot marshal itself in place, so marshal it first and take the length prefix from the
+		// actual bytes (Size() returns 0 for a message that only implements Marshaler)
+		buf, err := Marshal(m)
+		if err != nil {
+			return err
+		}
+		e.offset += EncodeTag(e.p[e.offset:], tag, WireTypeLengthDelimited)
+		e.offset += EncodeVarint(e.p[e.offset:], uint64(len(buf)))
+		copy(e.p[e.offset:], buf)
+		e.offset += len(buf)
+		return nil
+	}
 	sz := Size(m)
 	e.offset += EncodeTag(e.p[e.offset:], tag, WireTypeLengthDelimited)
 	e.offset += EncodeVarint(e.p[e.offset:], uint64(sz))
